@@ -169,7 +169,12 @@ func firstLine(s string) string {
 // ---------------------------------------------------------------------------------------------
 // C06 — lifecycle edges, timely payout, index / queue structure, minimum stake.
 
-type C06 struct{}
+type C06 struct {
+	// minMin: the smallest minimum stake that was in force so far in this history. A validator that satisfied
+	// the minimum when it was checked may sit below a minimum governance raised later (nothing in the
+	// statement re-checks existing stakes), so the below-minimum predicate uses this value.
+	minMin int64
+}
 
 func status(v *sim.View, a string) int {
 	if x, ok := v.Vals[a]; ok {
@@ -180,13 +185,13 @@ func status(v *sim.View, a string) int {
 
 var statusName = map[int]string{-1: "absent", 0: "unstaked", 1: "unstaking", 2: "staked"}
 
-func (C06) OnCall(e *sim.Env, c *sim.Call) {
+func (m *C06) OnCall(e *sim.Env, c *sim.Call) {
 	post := c.Post.View
 	if post == nil || (c.Panic != "" && c.Kind == "init") {
 		return
 	}
 	if !c.Reopened {
-		c06Structure(e, c, post)
+		c06Structure(e, c, post, m)
 	}
 	if c.Kind == "init" || c.Reopened {
 		return
@@ -294,8 +299,11 @@ func unstakeMsg(c *sim.Call) (posTypes.MsgBeginUnstake, bool) {
 	return m, ok
 }
 
-func c06Structure(e *sim.Env, c *sim.Call, v *sim.View) {
+func c06Structure(e *sim.Env, c *sim.Call, v *sim.View, m *C06) {
 	cp := sim.ParamsOf(v)
+	if m.minMin == 0 || cp.Min < m.minMin {
+		m.minMin = cp.Min
+	}
 	e.Count("c06.structure_checks")
 	inIndex := map[string]int{}
 	for _, ie := range v.Index {
@@ -340,8 +348,8 @@ func c06Structure(e *sim.Env, c *sim.Call, v *sim.View) {
 				e.Violate("C06", "unstaking-not-queued", fmt.Sprintf("unstaking validator %s is not queued at its completion time %v (after %s@%d)", a, x.Unstaking, c.Kind, c.H), c)
 			}
 		}
-		if x.Status != 0 && x.Tokens.Cmp(big.NewInt(cp.Min)) < 0 {
-			e.Violate("C06", "below-minimum/"+statusName[x.Status], fmt.Sprintf("%s validator %s holds %v, below the minimum stake %d (after %s@%d %s)", statusName[x.Status], a, x.Tokens, cp.Min, c.Kind, c.H, c.Entry.Label), c)
+		if x.Status != 0 && x.Tokens.Cmp(big.NewInt(m.minMin)) < 0 {
+			e.Violate("C06", "below-minimum/"+statusName[x.Status], fmt.Sprintf("%s validator %s holds %v, below the minimum stake %d (after %s@%d %s)", statusName[x.Status], a, x.Tokens, m.minMin, c.Kind, c.H, c.Entry.Label), c)
 		}
 	}
 }
@@ -457,6 +465,25 @@ func (m *C09) OnCall(e *sim.Env, c *sim.Call) {
 	}
 	if c.Kind == "end" && c.Panic != "" && contains(c.Panic, "jailed validator") {
 		e.Violate("C09", "jailed-in-power-index/endblock-panic", fmt.Sprintf("EndBlock@%d panicked on a jailed validator in the staked set: %s", c.H, firstLine(c.Panic)), c)
+	}
+	// a punished double sign leaves the offender tombstoned and jailed, whatever it was before (already jailed for
+	// downtime, unstaking, ...)
+	if c.Kind == "begin" && c.Panic == "" {
+		for _, ev := range slashEvents(c.ResBegin.Events) {
+			if ev.Reason != posTypes.AttributeValueDoubleSign {
+				continue
+			}
+			e.Count("c09.double_sign_punishments")
+			if pv, ok := pre.Vals[ev.Addr]; ok && pv.Jailed {
+				e.Count("c09.double_sign_while_already_jailed")
+			}
+			if s, ok := post.Sign[ev.Addr]; !ok || !s.Tombstoned {
+				e.Violate("C09", "double-sign-not-tombstoned", fmt.Sprintf("BeginBlock@%d punished a double sign of %s but it is not tombstoned afterwards", c.H, ev.Addr), c)
+			}
+			if v, ok := post.Vals[ev.Addr]; ok && !v.Jailed {
+				e.Violate("C09", "double-sign-not-jailed", fmt.Sprintf("BeginBlock@%d punished a double sign of %s but it is not jailed afterwards", c.H, ev.Addr), c)
+			}
+		}
 	}
 	// tombstone: permanent, and implies jailed
 	for a, s := range post.Sign {
